@@ -44,10 +44,10 @@ WHAT = {
 }
 
 ARGS = {
-    ("C09", "quick"): ["-modes", "special,tagtable,history,random", "-random", "3000", "-depth", "4", "-histories", "250"],
-    ("C09", "thorough"): ["-modes", "special,tagtable-full,enum,history,random", "-enum-depth", "3", "-random", "30000", "-depth", "4", "-histories", "3000"],
-    ("C10", "quick"): ["-modes", "special,tagtable,history,random", "-random", "3000", "-depth", "4", "-histories", "150"],
-    ("C10", "thorough"): ["-modes", "special,tagtable-full,enum,history,random", "-enum-depth", "3", "-random", "30000", "-depth", "4", "-histories", "2000"],
+    ("C09", "quick"): ["-modes", "special,tagtable,history,ignore,random", "-random", "3000", "-depth", "4", "-histories", "250", "-ignore", "60"],
+    ("C09", "thorough"): ["-modes", "special,tagtable-full,enum,history,ignore,random", "-enum-depth", "3", "-random", "30000", "-depth", "4", "-histories", "3000", "-ignore", "1000"],
+    ("C10", "quick"): ["-modes", "special,tagtable,history,ignore,random", "-random", "3000", "-depth", "4", "-histories", "150", "-ignore", "150"],
+    ("C10", "thorough"): ["-modes", "special,tagtable-full,enum,history,ignore,random", "-enum-depth", "3", "-random", "30000", "-depth", "4", "-histories", "2000", "-ignore", "2000"],
     ("C16", "quick"): ["-crypto", "-crypto-histories", "600"],
     ("C16", "thorough"): ["-crypto", "-crypto-histories", "12000"],
 }
@@ -56,7 +56,7 @@ ASSUMPTIONS = {
     "C09": ["reflect addressability is one boolean of the model (validated by the correspondence); AEAD / HKDF / HMAC are symbolic (Enc k l, Hmac k l): "
             "'cannot be read without the key' means the output leaf is not Plain",
             "payloads range over the shape grammar G of DESIGN 5.C09 (Encrypt.v type v); IgnoreTypes, structpb.Struct payloads, struct payloads passed by value, "
-            "named string types (json.Number, type T string) are not among the kinds the filter supports: it leaves them alone, also under a class tag; the model carries them as non-string values that must be preserved", "struct payloads passed by value are compared with the model (and snapshot-checked for C10) but are outside no_leak (their own strings cannot be set); []*string, arrays, strings held in interface{} fields / []interface{} elements, Taggable values nested in untagged maps and pointer tags deeper than /k/k2 are outside G",
+            "named string types (json.Number, type T string) are not among the kinds the filter supports: it leaves them alone, also under a class tag; the model carries them as non-string values that must be preserved", "struct payloads passed by value are compared with the model (and snapshot-checked for C10) but are outside no_leak (their own strings cannot be set); []*string, arrays, strings held in interface{} fields / []interface{} elements, pointer tags that go through anything but maps are outside G; a Taggable map DIRECTLY as a value of an untagged map is swept as an untagged map (modelled; its tags are not honoured); Filter.IgnoreTypes is outside the model: where the rule applies only the input-side oracles are evaluated",
             "with every operation overridden to none Process returns the event untouched before looking at the payload kind, so a rotation payload is then forwarded (C10's clause wins over C09's)"],
     "C10": ["'the original is untouched' is not expressible in the heap-free model: it is tied dynamically (deep snapshot of the input event before / after Process on every case) - partial",
             "copystructure (deep copy that zeroes unexported fields) is modelled by Encrypt.copyz, validated by the correspondence",
@@ -139,7 +139,7 @@ def _size(v):
     n = 1 + len(v.get("cs") or []) + len(v.get("tags") or [])
     for f in v.get("fields") or []:
         n += _size(f.get("v"))
-    if v.get("k") == "ptr":
+    if v.get("k") in ("ptr", "iface"):
         n += _size(v.get("elem"))
     for e in (v.get("elems") or []) + (v.get("vals") or []):
         n += _size(e)
